@@ -26,14 +26,17 @@ type Governance struct {
 }
 
 type prop struct {
-	id       string
-	typ      governance.ProposalType
-	proposer *world.Account
-	plan     string // pass | fail | cancel | miss | expire | config
-	funders  []*world.Account
-	created  int64
-	fundDl   int64
-	done     bool
+	id        string
+	typ       governance.ProposalType
+	proposer  *world.Account
+	plan      string // pass | fail | cancel | miss | expire | config
+	lateAt    int64
+	lateVoted bool
+	triedW    bool
+	funders   []*world.Account
+	created   int64
+	fundDl    int64
+	done      bool
 }
 
 func (g *Governance) Name() string { return "governance" }
@@ -200,12 +203,16 @@ func (g *Governance) Plan(c *Ctx) []hist.TxSpec {
 					if age == 4 {
 						out = append(out, g.vote(c, p, genVals[0], governance.OPIN_POSITIVE))
 					}
-					// an outsider tries to expire it early (only once)
+					out = append(out, g.lateVoter(c, p)...)
 					continue
 				}
 				op := governance.OPIN_POSITIVE
 				if p.plan == "fail" {
 					op = governance.OPIN_NEGATIVE
+				}
+				if age == 4 || age == 6 {
+					// the goal was met: nothing may leave escrow before finalisation
+					out = append(out, g.withdrawFunds(c, p, us[4], us[4], "7", "withdraw while voting (must fail)"))
 				}
 				// one or two validators vote per block, biggest first
 				idx := int(age-3) * 2
@@ -220,7 +227,17 @@ func (g *Governance) Plan(c *Ctx) []hist.TxSpec {
 			} else if store == "propFinalized" || store == "propFinalizeFailed" {
 				p.done = true
 			} else if store == "propFailed" && rec.Outcome == int(governance.ProposalOutcomeInsufficientVotes) {
-				p.done = true
+				// expired with its goal met: the funds stay in escrow
+				if !p.triedW {
+					p.triedW = true
+					out = append(out, g.withdrawFunds(c, p, us[4], us[4], "9", "withdraw from an expired proposal that met its goal (must fail)"))
+				} else {
+					p.done = true
+				}
+			} else if (store == "propPassed" || store == "propFailed") && !p.triedW {
+				// decided, not finalised yet
+				p.triedW = true
+				out = append(out, g.withdrawFunds(c, p, us[4], us[4], "11", "withdraw from a decided proposal before finalisation (must fail)"))
 			}
 		case "cancel":
 			if store == "propActive" && age == 1 {
@@ -265,6 +282,33 @@ func (g *Governance) Plan(c *Ctx) []hist.TxSpec {
 				out = append(out, g.withdrawFunds(c, p, us[4], us[4], "5", "withdraw before the funding deadline (must fail)"))
 			}
 		}
+	}
+	return out
+}
+
+// lateVoter lets a candidate stake in after the voting of p began and vote three blocks later: it is not
+// among the validators snapshotted for p, so its vote must be refused.
+func (g *Governance) lateVoter(c *Ctx, p *prop) []hist.TxSpec {
+	var out []hist.TxSpec
+	var late *world.Validator
+	for _, v := range c.W.Vals {
+		if !v.InGenesis {
+			late = v
+		}
+	}
+	if late == nil {
+		return nil
+	}
+	if p.lateAt == 0 {
+		p.lateAt = c.H
+		if StakeOf(c.S, late.ValAddr).Sign() == 0 {
+			out = append(out, (&Staking{}).stake(c, late, c.W.P.MinSelfDelegation+777, "a candidate stakes in after voting began"))
+		}
+	} else if c.H >= p.lateAt+3 && !p.lateVoted {
+		p.lateVoted = true
+		sp := g.vote(c, p, late, governance.OPIN_POSITIVE)
+		sp.Note = "vote by a validator that joined after the snapshot (must fail)"
+		out = append(out, sp)
 	}
 	return out
 }
